@@ -3,9 +3,16 @@ C09 - translator tie: the body of `MachineController._get_next_nn_id`
 (rig/machine_control/machine_controller.py) is regenerated from the source into `Gen/PyFun.lean`
 (state passing: the attribute `self._nn_id` is a parameter, the result is the returned id and the final
 `_nn_id`); it is proved equal to the model's `nextNn` (new `_nn_id`; the id sent is twice it).
+Second round: `_send_ffs`, `_send_ffcs`, `_send_ffe` - methods whose whole behaviour is one `self._send_scp(...)`
+call; the generated definition is the list of the calls' integer arguments (the `NNCommands` / `SCPCommands`
+members read from consts.py), proved equal to the model's `ffsReq` / `ffcsReq` / `ffeReq`; and `_send_ffd` (a
+`while` loop over the image: slicing of the byte string, one `_send_scp` call per block) = the model's `ffdReqs`,
+for every fuel of at least the image length.
 -/
 import RigModel.Model.C09
 import RigModel.Gen.PyFun
+import RigModel.Lemmas.IntBits
+import RigModel.Lemmas.PyLoops
 import Mathlib.Tactic.SplitIfs
 set_option linter.unusedSimpArgs false
 set_option linter.unusedVariables false
@@ -13,7 +20,7 @@ set_option linter.unusedTactic false
 set_option linter.unreachableTactic false
 
 namespace Rig.C09
-open Rig.Gen
+open Rig.Gen Rig.IntBits Rig.Gen.Load Rig.Gen.Scp Rig.PyLoops
 
 /-- `_get_next_nn_id` as written in the source = the model: returns `2 * nextNn n` and leaves
 `self._nn_id = nextNn n` -/
@@ -21,5 +28,171 @@ theorem gen_get_next_nn_id (n : Nat) :
     PyFun.MachineController_get_next_nn_id n = (((2 * nextNn n : Nat) : Int), ((nextNn n : Nat) : Int)) := by
   simp only [PyFun.MachineController_get_next_nn_id, nextNn, Prod.mk.injEq]
   constructor <;> (try split_ifs) <;> omega
+
+/-! ### the flood-fill packets: `_send_ffs`, `_send_ffcs`, `_send_ffe` -/
+
+/-- the integer arguments of the `_send_scp(x, y, p, cmd, arg1, arg2, arg3)` call a request stands for -/
+def reqInts (r : Req) : Int × Int × Int × Int × Int × Int × Int :=
+  ((r.x : Int), (r.y : Int), (r.p : Int), (r.cmd : Int), (r.arg1 : Int), (r.arg2 : Int), (r.arg3 : Int))
+
+/-- comparison of two naturals built from `|||` and `<<<` -/
+macro "nat_bits" : tactic => `(tactic|
+  first
+    | rfl
+    | (simp only [nnFfs, nnFfcs, nnFfe, nnForward, nnRetry, cmdNnp, cmdFfd, fr, Nat.lor_comm, Nat.lor_left_comm,
+         Nat.lor_assoc]; done)
+    | ((try simp only [nnFfs, nnFfcs, nnFfe, nnForward, nnRetry, cmdNnp, cmdFfd, fr])
+       apply Nat.eq_of_testBit_eq; intro i; simp only [Nat.testBit_or, Nat.testBit_shiftLeft]; grind))
+
+/-- cast-free form of a generated packet expression, then comparison of the naturals -/
+macro "ff_eq" : tactic => `(tactic|
+  (simp (disch := decide) only [reqInts, nnReq, lit_natCast, zero_natCast, one_natCast, shl_natCast, shr_natCast,
+     land_natCast, lor_natCast, xor_natCast, add_natCast, mul_natCast, Int.toNat_natCast, List.nil_append,
+     List.cons.injEq, Prod.mk.injEq, Nat.cast_inj, and_true]
+   try (repeat' apply And.intro)
+   all_goals (first | trivial | nat_bits)))
+
+/-- `_send_ffs` as written in the source: one `_send_scp` call with the arguments of the model's `ffsReq`
+(`fr` being what `flood_fill_aplx` passes) -/
+theorem gen_send_ffs (pid nBlocks : Nat) :
+    PyFun.MachineController_send_ffs pid nBlocks (fr : Nat) = [reqInts (ffsReq pid nBlocks)] := by
+  unfold PyFun.MachineController_send_ffs ffsReq
+  ff_eq
+
+theorem gen_send_ffcs (region coreMask : Nat) :
+    PyFun.MachineController_send_ffcs region coreMask (fr : Nat) = [reqInts (ffcsReq (region, coreMask))] := by
+  unfold PyFun.MachineController_send_ffcs ffcsReq
+  ff_eq
+
+theorem gen_send_ffe (pid appId flags : Nat) :
+    PyFun.MachineController_send_ffe pid appId flags (fr : Nat) = [reqInts (ffeReq pid appId flags)] := by
+  unfold PyFun.MachineController_send_ffe ffeReq
+  ff_eq
+
+/-! ### `_send_ffd`: the flood-fill data packets (a `while` loop over the image, one `_send_scp` per block) -/
+
+/-- a byte string of the model as the Python `bytes` value -/
+def bytesInt (d : List Nat) : List Int := d.map (fun (n : Nat) => (n : Int))
+
+/-- the arguments of the `_send_scp(x, y, p, cmd, arg1, arg2, arg3, data)` call a request stands for -/
+def reqInts8 (r : Req) : Int × Int × Int × Int × Int × Int × Int × List Int :=
+  ((r.x : Int), (r.y : Int), (r.p : Int), (r.cmd : Int), (r.arg1 : Int), (r.arg2 : Int), (r.arg3 : Int), bytesInt r.data)
+
+/-- `aplx_data[pos:pos + n]` inside the image -/
+theorem pySlice_bytes (d : List Nat) (pos n : Nat) (hp : pos ≤ d.length) :
+    PyFun.pySlice (bytesInt d) (pos : Int) ((pos : Int) + (n : Int)) = bytesInt ((d.drop pos).take n) := by
+  unfold PyFun.pySlice bytesInt
+  have h1 : ¬ ((pos : Int) < 0) := by omega
+  have h2 : ¬ ((pos : Int) + (n : Int) < 0) := by omega
+  simp only [h1, h2, if_false, List.length_map]
+  have e1 : (min (pos : Int) (d.length : Int)).toNat = pos := by omega
+  have e2 : (min ((pos : Int) + (n : Int)) (d.length : Int) - min (pos : Int) (d.length : Int)).toNat
+      = min n (d.length - pos) := by omega
+  rw [e1, e2, ← List.map_drop, ← List.map_take]
+  congr 1
+  rw [List.take_eq_take_iff]
+  simp only [List.length_drop]
+  omega
+
+theorem ffd_cond (len : Nat) (o : List (Int × Int × Int × Int × Int × Int × Int × List Int)) (b a p : Nat) :
+    PyFun.MachineController_send_ffd_loop1_cond (len : Int) (o, (b : Int), (a : Int), (p : Int)) = decide (p < len) := by
+  unfold PyFun.MachineController_send_ffd_loop1_cond
+  rw [Bool.eq_iff_iff]; simp only [decide_eq_true_eq]; omega
+
+/-- one block: the generated loop body appends the call of the model's request and advances like `ffdReqs` -/
+theorem ffd_body (pid buf : Nat) (d : List Nat) (o : List (Int × Int × Int × Int × Int × Int × Int × List Int))
+    (b a p : Nat) (hp : p ≤ d.length) (h4 : 4 ≤ ((d.drop p).take buf).length) :
+    PyFun.MachineController_send_ffd_loop1 (buf : Int) (pid : Int) (bytesInt d) (o, (b : Int), (a : Int), (p : Int))
+      = (o ++ [reqInts8 { x := 255, y := 255, p := 0, cmd := cmdFfd,
+                          arg1 := (nnForward <<< 24) ||| (nnRetry <<< 16) ||| pid,
+                          arg2 := (b <<< 16) ||| ((((d.drop p).take buf).length / 4 - 1) <<< 8), arg3 := a,
+                          data := (d.drop p).take buf }],
+         ((b + 1 : Nat) : Int), ((a + ((d.drop p).take buf).length : Nat) : Int),
+         ((p + ((d.drop p).take buf).length : Nat) : Int)) := by
+  unfold PyFun.MachineController_send_ffd_loop1
+  dsimp only
+  rw [pySlice_bytes d p buf hp]
+  generalize hblk : (d.drop p).take buf = blk at *
+  have hl : ((bytesInt blk).length : Int) = ((blk.length : Nat) : Int) := by simp [bytesInt]
+  have hs : Int.fdiv ((blk.length : Nat) : Int) 4 - 1 = ((blk.length / 4 - 1 : Nat) : Int) := by
+    rw [Int.fdiv_eq_ediv_of_nonneg _ (by decide)]; omega
+  rw [hl, hs]
+  simp (disch := decide) only [reqInts8, lit_natCast, zero_natCast, one_natCast, shl_natCast, lor_natCast,
+    add_natCast, Int.toNat_natCast, Prod.mk.injEq, List.append_cancel_left_eq, List.cons.injEq, Nat.cast_inj,
+    and_true, true_and]
+  try (repeat' apply And.intro)
+  all_goals (first | trivial | nat_bits)
+
+/-- the whole loop against the model's `ffdReqs` (its own fuel `mf`), by induction on the bytes left -/
+theorem ffd_loop (pid buf : Nat) (d : List Nat) (hb : 4 ≤ buf) (hb4 : buf % 4 = 0) :
+    ∀ (n p b a : Nat) (o : List (Int × Int × Int × Int × Int × Int × Int × List Int)),
+      p ≤ d.length → d.length - p ≤ n → (d.length - p) % 4 = 0 → ∀ fuel mf, n ≤ fuel → n ≤ mf →
+      ∃ b' a' p' : Nat,
+        PyFun.pyWhile (PyFun.MachineController_send_ffd_loop1_cond (d.length : Int))
+          (PyFun.MachineController_send_ffd_loop1 (buf : Int) (pid : Int) (bytesInt d)) fuel
+          (o, (b : Int), (a : Int), (p : Int))
+          = some (o ++ (ffdReqs pid buf mf b a (d.drop p)).map reqInts8, (b' : Int), (a' : Int), (p' : Int)) := by
+  intro n
+  induction n with
+  | zero =>
+    intro p b a o hp hn _ fuel mf _ _
+    have hpl : p = d.length := by omega
+    have hd : d.drop p = [] := by rw [hpl]; exact List.drop_length
+    refine ⟨b, a, p, ?_⟩
+    have hc : PyFun.MachineController_send_ffd_loop1_cond (d.length : Int) (o, (b : Int), (a : Int), (p : Int)) = false := by
+      rw [ffd_cond]; simp; omega
+    have hm : ffdReqs pid buf mf b a (d.drop p) = [] := by
+      rw [hd]; cases mf <;> simp [ffdReqs]
+    rw [hm]
+    cases fuel <;> simp [PyFun.pyWhile, hc]
+  | succ n ih =>
+    intro p b a o hp hn h4 fuel mf hf hmf
+    by_cases hpl : p = d.length
+    · have hd : d.drop p = [] := by rw [hpl]; exact List.drop_length
+      refine ⟨b, a, p, ?_⟩
+      have hc : PyFun.MachineController_send_ffd_loop1_cond (d.length : Int) (o, (b : Int), (a : Int), (p : Int)) = false := by
+        rw [ffd_cond]; simp; omega
+      have hm : ffdReqs pid buf mf b a (d.drop p) = [] := by
+        rw [hd]; cases mf <;> simp [ffdReqs]
+      rw [hm]
+      cases fuel <;> simp [PyFun.pyWhile, hc]
+    · obtain ⟨fuel, rfl⟩ : ∃ k, fuel = k + 1 := ⟨fuel - 1, by omega⟩
+      obtain ⟨mf, rfl⟩ : ∃ k, mf = k + 1 := ⟨mf - 1, by omega⟩
+      have hrem : (d.drop p).length = d.length - p := List.length_drop
+      have hbl : ((d.drop p).take buf).length = min buf (d.length - p) := by rw [List.length_take, hrem]
+      have hbl4 : 4 ≤ ((d.drop p).take buf).length := by rw [hbl]; omega
+      have hc : PyFun.MachineController_send_ffd_loop1_cond (d.length : Int) (o, (b : Int), (a : Int), (p : Int)) = true := by
+        rw [ffd_cond]; simp; omega
+      rw [PyFun.pyWhile, if_pos hc, ffd_body pid buf d o b a p hp hbl4]
+      have hpos : 0 < (d.drop p).length := by omega
+      rw [ffdReqs, if_pos (by omega)]
+      obtain ⟨b', a', p', e⟩ := ih (p + ((d.drop p).take buf).length) (b + 1) (a + ((d.drop p).take buf).length)
+        (o ++ [reqInts8 { x := 255, y := 255, p := 0, cmd := cmdFfd,
+                          arg1 := (nnForward <<< 24) ||| (nnRetry <<< 16) ||| pid,
+                          arg2 := (b <<< 16) ||| ((((d.drop p).take buf).length / 4 - 1) <<< 8), arg3 := a,
+                          data := (d.drop p).take buf }])
+        (by rw [hbl]; omega) (by rw [hbl]; omega) (by rw [hbl]; omega) fuel mf (by omega) (by omega)
+      refine ⟨b', a', p', ?_⟩
+      rw [e]
+      simp only [List.map_cons, List.append_assoc, List.singleton_append, List.drop_drop, Nat.add_comm]
+
+/-- `_send_ffd` as written in the source: the `_send_scp` calls are the model's `ffdReqs`, for a buffer size that
+is a positive multiple of 4 and an image that is a whole number of words (every block then has at least one word;
+`size = data_size // 4 - 1` is negative otherwise), with fuel at least the image length -/
+theorem gen_send_ffd (pid buf : Nat) (d : List Nat) (addr fuel : Nat) (hb : 4 ≤ buf) (hb4 : buf % 4 = 0)
+    (hd4 : d.length % 4 = 0) (hf : d.length ≤ fuel) :
+    PyFun.MachineController_send_ffd (buf : Int) (pid : Int) (bytesInt d) (addr : Int) fuel
+      = .ok ((ffdReqs pid buf d.length 0 addr d).map reqInts8) := by
+  unfold PyFun.MachineController_send_ffd
+  obtain ⟨b', a', p', e⟩ := ffd_loop pid buf d hb hb4 d.length 0 0 addr [] (by omega) (by omega) (by omega)
+    fuel d.length hf (le_refl _)
+  have hl : ((bytesInt d).length : Int) = (d.length : Int) := by simp [bytesInt]
+  dsimp only
+  rw [hl]
+  simp only [Nat.cast_zero, List.drop_zero, List.nil_append] at e
+  rw [e]
+
+/-- the hypotheses are satisfiable: an 8-byte image, 4-byte buffer: two blocks -/
+example : (ffdReqs 2 4 8 0 100 [1, 2, 3, 4, 5, 6, 7, 8]).length = 2 := by decide
 
 end Rig.C09
